@@ -269,10 +269,21 @@ def _commute(e1, e2) -> bool:
     return ta not in txb and tb not in txa
 
 
-def canon_trace(trace: tuple) -> tuple:
+def canon_trace(trace: tuple, final: str = "") -> tuple:
     """adjacent independent effects (stores to different attributes, mutations of different fresh containers, with
-    effect-free operands) are put in a canonical order"""
+    effect-free operands) are put in a canonical order; the evaluation event of a call whose result is consumed by the
+    very next event (`x = f(); g(x)` vs `g(f())`) is merged into it"""
     ev = [e for e in trace if e[0] != "a"]
+    merged = []
+    for i, e in enumerate(ev):
+        if e[0] == "e" and isinstance(e[1], str) and e[1].startswith("_ := "):
+            v = e[1][5:]
+            nxt = ev[i + 1] if i + 1 < len(ev) else None
+            nxt_text = " ".join(str(x) for x in nxt[1:]) if nxt is not None else final
+            if v and v in nxt_text and not (nxt is not None and nxt[0] == "e" and str(nxt[1]).startswith("_ := ")):
+                continue
+        merged.append(e)
+    ev = merged
     n = len(ev)
     changed = True
     while changed:
@@ -901,9 +912,22 @@ def _inside(root, n) -> bool:
 
 def _append_idiom(loop):
     """for t in it: [if C:] X.append(E)   ->   (X, [E for t in it if C])   (None if the loop is anything else)"""
-    if not isinstance(loop, ast.For) or loop.orelse or len(loop.body) != 1:
+    if not isinstance(loop, ast.For) or loop.orelse or not loop.body:
         return None
-    st = loop.body[0]
+    body = list(loop.body)
+    # leading single-use temporaries `t = E` are inlined into what follows
+    temps = {}
+    while len(body) > 1 and isinstance(body[0], ast.Assign) and len(body[0].targets) == 1 and isinstance(body[0].targets[0], ast.Name):
+        t = body[0].targets[0].id
+        uses = sum(1 for b in body[1:] for n in ast.walk(b) if isinstance(n, ast.Name) and n.id == t and isinstance(n.ctx, ast.Load))
+        stores = sum(1 for b in body[1:] for n in ast.walk(b) if isinstance(n, ast.Name) and n.id == t and isinstance(n.ctx, ast.Store))
+        if uses != 1 or stores:
+            return None
+        temps[t] = _SubNames(temps).visit(copy.deepcopy(body[0].value))
+        body = body[1:]
+    if len(body) != 1:
+        return None
+    st = _SubNames(temps).visit(copy.deepcopy(body[0])) if temps else body[0]
     conds = []
     while isinstance(st, ast.If) and not st.orelse and len(st.body) == 1:
         conds.append(st.test)
@@ -927,6 +951,7 @@ class _Idioms(ast.NodeTransformer):
     between; a `match` over literal / fixed-length sequence / class / wildcard patterns is an if-chain"""
 
     def _rewrite_list(self, body):
+        body = self._any_all(list(body))
         out = []
         for st in body:
             st = self.visit(st)
@@ -951,6 +976,38 @@ class _Idioms(ast.NodeTransformer):
                     out.append(new)
                     continue
             out.append(st)
+        return out
+
+    @staticmethod
+    def _any_all(body):
+        """for t in it: if P: return True / return False   ->   return any(P for t in it)   (and the dual with all)"""
+        out = []
+        i = 0
+        while i < len(body):
+            st = body[i]
+            nxt = body[i + 1] if i + 1 < len(body) else None
+            if (
+                isinstance(st, ast.For) and not st.orelse and len(st.body) == 1 and isinstance(st.body[0], ast.If) and not st.body[0].orelse
+                and len(st.body[0].body) == 1 and isinstance(st.body[0].body[0], ast.Return) and isinstance(nxt, ast.Return)
+                and isinstance(st.body[0].body[0].value, ast.Constant) and isinstance(nxt.value, ast.Constant)
+                and isinstance(st.body[0].body[0].value.value, bool) and isinstance(nxt.value.value, bool)
+                and st.body[0].body[0].value.value != nxt.value.value
+                and not any(isinstance(n, (ast.Yield, ast.YieldFrom, ast.Await, ast.NamedExpr)) for n in ast.walk(st))
+            ):
+                inner_true = st.body[0].body[0].value.value
+                test = st.body[0].test
+                if inner_true:
+                    elt, fn = test, "any"
+                else:
+                    elt, fn = ast.UnaryOp(op=ast.Not(), operand=test), "all"
+                gen = ast.GeneratorExp(elt=elt, generators=[ast.comprehension(target=st.target, iter=st.iter, ifs=[], is_async=0)])
+                new = ast.copy_location(ast.Return(value=ast.Call(func=ast.Name(id=fn, ctx=ast.Load()), args=[gen], keywords=[])), st)
+                ast.fix_missing_locations(new)
+                out.append(new)
+                i += 2
+                continue
+            out.append(st)
+            i += 1
         return out
 
     def generic_visit(self, node):
@@ -1111,7 +1168,7 @@ def summarise(fn: ast.AST, max_paths: int = 2000) -> list[Path] | None:
 
 def describe_path(p: Path, asserts: bool = True) -> str:
     evs = []
-    for e in (p.trace if asserts else canon_trace(p.trace)):
+    for e in (p.trace if asserts else canon_trace(p.trace, p.value)):
         if e[0] == "a" and not asserts:
             continue
         evs.append(e[1] if e[0] == "c" else "<" + " ".join(str(x) for x in e) + ">")
